@@ -9,6 +9,7 @@ exceptions by type name, unknown objects by type name only (never a false alarm 
 The harness never uses `==` on library objects and never keeps a returned array without canonising it first.
 """
 import hashlib
+import inspect
 import marshal
 
 import numpy as np
@@ -68,7 +69,7 @@ _RECORD_ATTRS = {
 }
 
 
-def canon(x, _depth=0):
+def canon(x, _depth=0, _obj=0):
     if _depth > 12:
         return ("deep",)
     if x is None:
@@ -98,29 +99,29 @@ def canon(x, _depth=0):
                 "mask",
                 tname,
                 canon_ndarray(np.asarray(arr)),
-                canon(getattr(x, "pixel_scales", None), _depth + 1),
-                canon(getattr(x, "origin", None), _depth + 1),
+                canon(getattr(x, "pixel_scales", None), _depth + 1, _obj),
+                canon(getattr(x, "origin", None), _depth + 1, _obj),
             )
         mask = getattr(x, "mask", None)
         extra = ()
         if tname in ("Grid2DIrregular", "ArrayIrregular", "Visibilities", "VisibilitiesNoiseMap"):
             mask = None
-        return ("aa", tname, canon_ndarray(np.asarray(arr)), canon(mask, _depth + 1) if mask is not None else ("none",)) + extra
+        return ("aa", tname, canon_ndarray(np.asarray(arr)), canon(mask, _depth + 1, _obj) if mask is not None else ("none",)) + extra
     if isinstance(x, np.ndarray):
         return canon_ndarray(x)
     if isinstance(x, (tuple, list)):
-        return ("t" if isinstance(x, tuple) else "l", tuple(canon(v, _depth + 1) for v in x))
+        return ("t" if isinstance(x, tuple) else "l", tuple(canon(v, _depth + 1, _obj) for v in x))
     if isinstance(x, dict):
         items = []
         for k, v in x.items():
             if isinstance(k, (str, int, float, bool, tuple)) or k is None:
-                ck = canon(k, _depth + 1)
+                ck = canon(k, _depth + 1, _obj)
             else:
                 ck = ("key", type(k).__name__)
-            items.append((ck, canon(v, _depth + 1)))
+            items.append((ck, canon(v, _depth + 1, _obj)))
         return ("d", tuple(items))
     if isinstance(x, (set, frozenset)):
-        return ("set", tuple(sorted(repr(canon(v, _depth + 1)) for v in x)))
+        return ("set", tuple(sorted(repr(canon(v, _depth + 1, _obj)) for v in x)))
     mod = type(x).__module__ or ""
     if mod.startswith("scipy.sparse"):
         try:
@@ -130,11 +131,30 @@ def canon(x, _depth=0):
     if tname == "Delaunay" and hasattr(x, "simplices"):
         return ("delaunay", canon_ndarray(x.points), canon_ndarray(x.simplices))
     if tname in _RECORD_ATTRS:
-        return ("rec", tname, tuple((a, canon(getattr(x, a, None), _depth + 1)) for a in _RECORD_ATTRS[tname]))
+        return ("rec", tname, tuple((a, canon(getattr(x, a, None), _depth + 1, _obj)) for a in _RECORD_ATTRS[tname]))
     if tname in ("Imaging", "Interferometer") and hasattr(x, "noise_map"):
-        return ("ds", tname, canon(getattr(x, "data", None), _depth + 1), canon(getattr(x, "noise_map", None), _depth + 1), canon(getattr(x, "psf", None), _depth + 1))
+        return ("ds", tname, canon(getattr(x, "data", None), _depth + 1, _obj), canon(getattr(x, "noise_map", None), _depth + 1, _obj), canon(getattr(x, "psf", None), _depth + 1, _obj))
     if tname == "Header":
         return ("obj", tname)
+    if mod.startswith("autoarray") and _obj < 2 and tname != "Preloads":
+        # any other library object a query hands back (an over-sampler, a geometry or derive helper, mapper grids, a settings or
+        # regularization object ...) is its public attributes, two objects deep: what it IS, not what it has cached - entries of
+        # cached properties and private attributes are left out, so that the history of the returned object does not count.
+        # (A Preloads reports its own history by design and stays opaque.)
+        d = getattr(x, "__dict__", None)
+        if d:
+            items = []
+            for k in sorted(d):
+                if k.startswith("_") or k == "run_time_dict":
+                    continue
+                try:
+                    a = inspect.getattr_static(type(x), k)
+                except AttributeError:
+                    a = None
+                if a is not None and type(a).__name__ in ("CachedProperty", "cached_property"):
+                    continue
+                items.append((k, canon(d[k], _depth + 1, _obj + 1)))
+            return ("obj", tname, tuple(items))
     return ("obj", tname)
 
 
@@ -190,7 +210,7 @@ def describe(tree, limit=6) -> str:
     if tag == "d":
         return f"dict[{len(tree[1])}] sha1:{digest(tree)}"
     if tag == "obj":
-        return f"<{tree[1]}>"
+        return f"<{tree[1]}>" if len(tree) < 3 else f"<{tree[1]} sha1:{digest(tree)}>"
     return f"{tag} sha1:{digest(tree)}"
 
 
